@@ -12,12 +12,13 @@ CLAIMED = {
     'C01': {
         'text': 'Proof: C01_codes_inverse, C01_prism_perm_involutive, C01_orientation (FrontISTR outward face cycles of the written row = '
                 'femio\'s face tables, for tet/tet2/prism/hex/hex2; C01_prism_unpermuted_inverted shows the symmetric error), '
-                'C01_float_roundtrip (%.pE vs float() at every precision), C01_row_roundtrip, C01_blocks_roundtrip, C01_roundtrip_partial '
-                '(node / element / temperature sections for every mesh), C01_format_insensitive_blank_comment / _split / _bang_fixed are '
+                'C01_float_roundtrip (%.pE vs float() at every precision), C01_roundtrip (WHOLE file: readMsh (writeMsh m) = canon m for '
+                'every well-formed mesh incl. groups, section/material, temperatures, remove_useless_nodes), C01_format_insensitive (any '
+                'sequence of G1 blank / G2 comment / G3 whitespace / G4 block-split steps on arbitrary text), C01_roundtrip_any_format are '
                 'kernel-checked; tied to the tree by string-identical writer text on 13-digit decimals and model reader vs real reader on '
                 'the written and G1-G6 mutated text.',
-        'note': 'whole-file round trip is partial (section re-finding with symbolic names, section/material lines, remove_useless_nodes by '
-                'correspondence only); G3 whitespace per field only; FrontISTR ordering convention is a hand spec; %.12E/float() rounding is runtime',
+        'note': 'G4 for !EGROUP was false of the upstream code (finding G6, fixed); FrontISTR ordering convention is a hand spec; '
+                '%.12E/float() rounding is runtime; the theorem right-hand side (canon) is evaluated by the driver and compared with the real reader',
         'technique': 'Lean 4 proof (string-level lexer/printer lemmas, table obligations by decide, ring for orientation) + differential correspondence of file text',
         'design': '4/C01',
     },
@@ -36,7 +37,8 @@ CLAIMED = {
     'C03': {
         'text': 'Proof: C03_boundary / _spring / _cload_roundtrip (prescription set preserved for every NaN pattern, node subset and row order, '
                 '3 dofs; C03_boundary_dof_gt3_lost shows the hypothesis is needed), C03_line_roundtrip, C03_fixtemp / _cflux_roundtrip, '
-                'C03_group_expansion (group-name rows = explicit member rows), C03_solution_type are kernel-checked; tied to the tree by '
+                'C03_group_expansion (group-name rows = explicit member rows), C03_solution_type, C03_file_roundtrip / C03_roundtrip (the '
+                'WHOLE control file: readCnt (writeCnt c) = expectedCnt c) are kernel-checked; tied to the tree by '
                 'identical control-file text and row-by-row table comparison incl. group-name files.',
         'note': '6-dof tables, all-NaN tables, cflux+pure_cflux are labelled outside streams; %.5E/%E/%.12E rounding is runtime',
         'technique': 'Lean 4 proof (prescription-set lemmas, line lexers) + differential correspondence of control-file text and parsed tables',
@@ -119,7 +121,8 @@ CLAIMED = {
                 'polyhedron fan/centroid) K(p+t) = K p and K(A.p) = det A . K p (rotation invariance, reflection sign, s^3 scaling in one '
                 'identity); area vectors transform with the cofactor matrix and radicands are invariant under rigid motion (s^4 under scaling, '
                 'normals rotate); all modes agree with the closed form on affine cells; C11_relabel / C11_storage_perm(_mixed) via id-lookup '
-                'lemmas; C11_brick_count / positive / sum for generate_brick. Tie: exact-rational evaluation of every kernel x mode against '
+                'lemmas; C11_polyC_translate, mode-defect identities and agreement of all modes on planar-faced (not only affine) hex / prism / '
+                'pyramid cells (C11Modes); C11_brick_count / positive / sum for generate_brick. Tie: exact-rational evaluation of every kernel x mode against '
                 'the real float result (Schwartz-Zippel argument, N and grid size in the evidence) + differential id lookup / brick connectivity.',
         'note': 'over exact fields; sqrt, float32 accumulators, the truncated Gauss constant and LAPACK are runtime (scale-relative tolerances); '
                 'polyhedron centroid kernel: translation invariance by oracle only',
@@ -207,13 +210,18 @@ CLAIMED = {
         'design': '4/C19',
     },
     'C20': {
-        'text': 'Proof: C20_check_polyhedron_spec / C20_checker_sound (the coded checker implies closed cells with >= 3 distinct nodes per face), '
+        'text': 'Proof: C20_pipeline_invariant / C20_pipeline_output / C20_pipeline_flux: for EVERY finite sequence of the modelled compress() '
+                'steps (merge any grouping of cells, merge faces along any admissible edge, remove_vertices_2, merge any vertex pair, shrink, '
+                'reindex; the heuristic only chooses among them) from closed cells, all cells stay closed with >= 3 distinct nodes per face, the '
+                'listed nodes are exactly the used ones, and the total flux (volume) is kept by every run that merges no vertices and merges '
+                'faces only when coplanar; C20_check_polyhedron_spec / C20_checker_sound (the coded checker implies closed cells with >= 3 distinct nodes per face), '
                 'C20_merge_closed_additive / C20_merge_closed, C20_edge_merge(_flux), C20_nodes_exact (reindex), C20_mean_constants(_back), '
                 'C20_sum_total(_back), C20_rows_cols_nonempty are kernel-checked step theorems; every cell of every real compress() output '
                 'goes through the verified checker in the driver (validation, labelled so); merge / reindex / remove-edge steps and the four '
                 'transfer functions are compared with the model on the real conversion matrices; volumes by exact rationals.',
-        'note': 'the heuristic compress() pipeline (hashing seed, float thresholds, greedy orders) is not modelled end to end; volume clause '
-                'is an open known finding for thresholds admitting non-coplanar merges',
+        'note': 'the CHOICES of the heuristic (hashing seed, float thresholds, greedy orders) are universally quantified, not modelled; '
+                'removeOneEdge spec vs literal transcription tied by differential test on every traced call; volume clause is an open known '
+                'finding for thresholds admitting non-coplanar merges',
         'technique': 'Lean 4 proof of step lemmas + verified checker applied per output (validation) + differential correspondence on real matrices',
         'design': '4/C20',
     },
